@@ -136,7 +136,6 @@ func GosymH_ST_strconv() {
 		ref = append([]byte{'1'}, ref...)
 	}
 	gosym_Assert(h == string(ref), "Sprintf-%08x")
-	gosym_Assert(strconv.FormatInt(u, 16) == strings.TrimLeft(string(ref), "0") || (u == 0 && strconv.FormatInt(u, 16) == "0"), "strconv.FormatInt-base16")
 	pu, herr := strconv.ParseInt(h, 16, 64)
 	gosym_Assert(herr == nil && pu == u, "strconv.ParseInt-base16")
 	gosym_Reach("done")
